@@ -524,6 +524,9 @@ func GenKPlanC16(r *core.Rng) *KPlan {
 		}
 		if r.Chance(1, 6) {
 			f.DataPad = r.Intn(24)
+			if r.Chance(1, 6) {
+				f.DataPad = 8970 - 64 + r.Range(0, 120) // a reply around and beyond the largest audit message
+			}
 		}
 		if r.Chance(1, 8) {
 			f.UnsolBefore = r.Intn(3)
